@@ -20,7 +20,8 @@ from verifkit.gen import specs as G
 ID = "C16"
 RULE = ("kind 'stochastic': event models x {exact, tau} x {raw, gridded} x 1-3 iterations x seed histories (seed, run, run); kind 'params': "
         "closed epidemic-type models with parameters given as frozen scipy distributions and/or (sampler, args) tuples (args as dict and as "
-        "tuple), solve_determ and simulate_param with full output. Non-trivial: stochastic run whose raw paths have >=5 accepted steps, or a "
+        "tuple), solve_determ, simulate_param and solve_stochast with full output; the random definitions are assigned after every seeding, "
+        "once, or once followed by a second dict assignment. Non-trivial: stochastic run whose raw paths have >=5 accepted steps, or a "
         "random-parameter run with >=2 iterations; distinct by hash of the case")
 ASSUMPTIONS = ["'identical outputs' means bitwise equality of every returned array",
                "'different seeds change them' is asserted only where draws were consumed and on outputs that contain the event times "
@@ -38,7 +39,8 @@ def plan(tier):
 def floors(tier):
     return {"nontrivial": 100, "held:main": 150, "counter:same_seed_pairs": 300, "counter:different_seed_pairs": 120,
             "counter:mean_checks": 50, "counter:global_stream_consumed": 200, "class:stochastic": 80, "class:params": 50,
-            "class:frozen": 25, "class:sampler-dict-args": 15, "class:sampler-tuple-args": 15, "class:simulate_param": 15, "class:solve_determ": 15}
+            "class:frozen": 25, "class:sampler-dict-args": 15, "class:sampler-tuple-args": 15, "class:simulate_param": 15, "class:solve_determ": 15, "class:solve_stochast": 15,
+            "class:assign-each": 10, "class:assign-once": 10, "class:assign-once+update": 20}
 
 
 def fingerprint():
@@ -97,7 +99,7 @@ class SeedProbe:
 
 
 def run_case(rng, idx, tier, lane, ctx):
-    kind = "stochastic" if rng.random() < 0.6 else "params"
+    kind = "stochastic" if rng.random() < 0.55 else "params"
     counters = {"same_seed_pairs": 0, "different_seed_pairs": 0, "mean_checks": 0, "global_stream_consumed": 0, "fresh_generators": 0}
     wit = []
     cls = [kind]
@@ -221,24 +223,55 @@ def run_case(rng, idx, tier, lane, ctx):
             cls.append("frozen")
         n_it = rng.randint(2, 5)
         t = np.linspace(0, rng.choice([1.0, 3.0]), rng.randint(3, 8))[1:]
-        entry = rng.choice(["solve_determ", "simulate_param"])
-        cls.append(entry)
+        entry = rng.choice(["solve_determ", "solve_determ", "simulate_param", "simulate_param", "solve_stochast-exact", "solve_stochast-tau"])
+        cls.append(entry.split("-")[0])
+        # when are the random parameters handed to the model?  'each': re-assigned after every seeding (as a script that is re-run);
+        # 'once': assigned once, then seed -> run repeated; 'once+update': assigned once, followed by a second dict assignment (a
+        # numeric value for one name, or the same definitions again) before the seeded runs
+        assign = rng.choice(["each", "once", "once+update", "once+update"])
+        cls.append("assign-" + assign)
         s1, s2 = np_seed(rng), np_seed(rng)
-        sample = {"kind": kind, "spec": spec, "x0": x0, "params": desc, "iterations": n_it, "times": t.tolist(), "entry": entry, "seeds": [s1, s2]}
+        sample = {"kind": kind, "spec": spec, "x0": x0, "params": desc, "iterations": n_it, "times": t.tolist(), "entry": entry,
+                  "seeds": [s1, s2], "assign": assign}
+        if assign != "each":
+            np.random.seed(np_seed(rng))
+            m.parameters = dict(arg)
+            if assign == "once+update":
+                numeric = [q for q in P if desc[q][0] == "number"]
+                if numeric and rng.random() < 0.6:
+                    q = rng.choice(numeric)
+                    m.parameters = {q: round(rng.uniform(0.1, 1.0), 3)}
+                    sample["update"] = "numeric value for " + q
+                else:
+                    m.parameters = dict(arg)
+                    sample["update"] = "same definitions again"
+            # unrelated use of the global generator between the assignment and the seeded runs
+            np.random.uniform(size=rng.randint(1, 5))
 
         def history(seed):
             np.random.seed(seed)
             f0 = fingerprint()
-            m.parameters = dict(arg)
+            if assign == "each":
+                m.parameters = dict(arg)
             with contextlib.redirect_stdout(io.StringIO()), np.errstate(all="ignore"):
-                out = getattr(m, entry)(t, n_it, full_output=True)
+                if entry.startswith("solve_stochast"):
+                    out = m.solve_stochast(float(t[-1]), n_it, exact=entry.endswith("exact"), full_output=True)
+                else:
+                    out = getattr(m, entry)(t, n_it, full_output=True)
             return out, f0 != fingerprint()
+        from verifkit.mon.probes import SimProbe, StepCap
         try:
-            with SeedProbe() as sp:
+            with SeedProbe() as sp, SimProbe(step_cap=20000):
                 o1, c1 = history(s1)
                 o2, _ = history(s1)
                 o3, _ = history(s2)
+        except StepCap:
+            return {"status": "inconclusive", "reason": "monitor-step-cap", "counters": counters, "sample": sample}
         except Exception as e:
+            if entry.startswith("solve_stochast"):
+                counters["simulation_raised"] = counters.get("simulation_raised", 0) + 1
+                return {"status": "inconclusive", "reason": "simulation-raised (no output to compare; C04 decides 'returns'): " + type(e).__name__,
+                        "sample": sample, "counters": counters, "classes": cls}
             return {"status": "violated", "sample": sample, "counters": counters, "classes": cls,
                     "witnesses": [{"what": "%s raised with random parameters" % entry, "error": short_exc(e), "tb": tb_tail(e)}]}
         counters["fresh_generators"] += sp.fresh
@@ -246,17 +279,24 @@ def run_case(rng, idx, tier, lane, ctx):
             counters["global_stream_consumed"] += 1
         else:
             bad("random parameters were drawn without consuming the global generator")
-        if not np.all(np.isfinite(np.asarray(o1[0], dtype=float))):
+        stoch = entry.startswith("solve_stochast")
+        if not stoch and not np.all(np.isfinite(np.asarray(o1[0], dtype=float))):
             return {"status": "inconclusive", "reason": "non-finite-deterministic-solution", "counters": counters, "sample": sample}
         counters["same_seed_pairs"] += 1
+        counters["same_seed_pairs_assign_" + assign] = counters.get("same_seed_pairs_assign_" + assign, 0) + 1
         if not same(o1, o2):
-            bad("the same seed gave different random-parameter runs", entry=entry)
+            bad("the same seed gave different random-parameter runs", entry=entry, assign=assign, update=sample.get("update"))
         counters["different_seed_pairs"] += 1
-        if same(o1[1], o3[1]):
-            bad("two different seeds gave identical random-parameter runs", entry=entry)
-        Y, sols = o1
-        counters["mean_checks"] += 1
-        if len(sols) != n_it:
+        if same(o1[2] if stoch else o1[1], o3[2] if stoch else o3[1]):
+            bad("two different seeds gave identical random-parameter runs", entry=entry, assign=assign)
+        if stoch:
+            Y, sols = None, []
+        else:
+            Y, sols = o1
+            counters["mean_checks"] += 1
+        if stoch:
+            pass
+        elif len(sols) != n_it:
             bad("number of returned runs differs from the iteration count", returned=len(sols), iterations=n_it)
         else:
             mean = np.mean(np.stack([np.asarray(s, dtype=float) for s in sols], axis=0), axis=0)
